@@ -71,6 +71,7 @@ def run(chk):
     values(chk, wa)
     maps(chk, wa)
     procs(chk, wa, thorough)
+    strs(chk, wa)
     chk.sample({"call": kernel.call(cs[0]), "want": kernel.expected_rt(cs[0], signed)})
     chk.sample({"call": kernel.call(cs[len(cs) // 2]), "want": kernel.expected_rt(cs[len(cs) // 2], signed)})
     chk.cov["exhaustive"] = True
@@ -223,6 +224,79 @@ def procs(chk, wa, thorough):
                            {"program": p["prog"], "source": proc_fn(i, p["prog"]), "got": got[i], "want": want})
     chk.cov["proc_programs"] = len(ps)
     chk.sample({"proc_program": ps[len(ps) // 2]})
+
+
+def strs(chk, wa):
+    """WaStr.tla: strings as byte sequences - range decoding, rune conversions, comparison, concatenation, slicing"""
+    import os
+    res = common.run_tlc("lang", "WaStr", "str.cfg", files={"StdLib.tla": open(os.path.join(common.SPECS, "std", "StdLib.tla")).read()}, collect_prefix='<<"T"', timeout=3000)
+    if res.violated:
+        raise MachineryError("WaStr.tla violates " + res.violated)
+    chk.tlc(res, "WaStr (range over strings, rune conversions, byte operations)")
+    cs = [json.loads(common.parse_printt(l, "T")[0]) for l in res.lines]
+    cs.sort(key=lambda c: json.dumps(c, sort_keys=True))
+
+    def sv(b):
+        return "string([]byte{%s})" % ", ".join(str(x) for x in b)
+
+    def stmt(i, c):
+        a = c["a"]
+        head = "\tprint(%d)\n" % i
+        fn = c["fn"]
+        if fn == "range":
+            return head + "\tfor i, r := range %s {\n\t\tprint(\" \")\n\t\tprint(i)\n\t\tprint(\":\")\n\t\tprint(int(r))\n\t}\n\tprintln()\n" % sv(a[0]["v"])
+        if fn == "runes":
+            return head + "\tfor _, r := range []rune(%s) {\n\t\tprint(\" \")\n\t\tprint(int(r))\n\t}\n\tprintln()\n" % sv(a[0]["v"])
+        if fn == "string(rune)":
+            return head + "\tfor _, b := range []byte(string(rune(%d))) {\n\t\tprint(\" \")\n\t\tprint(int(b))\n\t}\n\tprintln()\n" % a[0]["v"]
+        if fn == "less":
+            return head + "\tprint(\" \")\n\tprintln(%s < %s)\n" % (sv(a[0]["v"]), sv(a[1]["v"]))
+        if fn == "equal":
+            return head + "\tprint(\" \")\n\tprintln(%s == %s)\n" % (sv(a[0]["v"]), sv(a[1]["v"]))
+        if fn == "concat":
+            return head + "\tfor _, b := range []byte(%s + %s) {\n\t\tprint(\" \")\n\t\tprint(int(b))\n\t}\n\tprintln()\n" % (sv(a[0]["v"]), sv(a[1]["v"]))
+        if fn == "slice":
+            return head + "\tfor _, b := range []byte(%s[%d:%d]) {\n\t\tprint(\" \")\n\t\tprint(int(b))\n\t}\n\tprintln()\n" % (sv(a[0]["v"]), a[1]["v"], a[2]["v"])
+        raise MachineryError("string case " + fn)
+
+    def want(c):
+        w = c["want"]
+        if w["t"] == "pairs":
+            return "".join(" %d:%d" % (p[0], p[1]) for p in w["v"])
+        if w["t"] == "b":
+            return " true" if w["v"] else " false"
+        return "".join(" %d" % x for x in w["v"])
+    batches = list(common.chunks(list(enumerate(cs)), 500))
+    d = common.subdir("c01s2")
+
+    def job(kb):
+        k, batch = kb
+        fns, calls = [], []
+        for j in range(0, len(batch), 40):
+            fns.append("func part%d {\n%s}\n\n" % (j // 40, "".join(stmt(i, c) for i, c in batch[j:j + 40])))
+            calls.append("\tpart%d()\n" % (j // 40))
+        f = os.path.join(d, "s%d.wa" % k)
+        open(f, "w").write("".join(fns) + "func main {\n" + "".join(calls) + "}\n")
+        rc, so, se, to = common.run_child([wa, "run", f], timeout=300, cwd=d)
+        os.unlink(f)
+        return batch, rc, so, se, to
+    for batch, rc, so, se, to in common.parallel(job, list(enumerate(batches))):
+        got = {}
+        for l in so.splitlines():
+            t = l.split(" ", 1)
+            if t[0].isdigit():
+                got[int(t[0])] = (" " + t[1]) if len(t) > 1 else ""
+        if rc != 0 and not got:
+            raise MachineryError("the string driver does not run: " + (se or so)[-300:])
+        for i, c in batch:
+            chk.add("traces_validated_against_impl", 1)
+            if i not in got:
+                chk.report("C01:strings:abort:%s" % c["fn"], "the program stops (status %s) at %s(%s): %s" % (rc, c["fn"], json.dumps([x["v"] for x in c["a"]]), (se or so)[-200:]), {"case": c})
+                break
+            if got[i].rstrip() != want(c).rstrip():
+                chk.report("C01:strings:%s" % c["fn"], "%s(%s) prints %r; Go's semantics give %r" % (c["fn"], json.dumps([x["v"] for x in c["a"]]), got[i], want(c)), {"case": c, "got": got[i]})
+    chk.cov["string_cases"] = len(cs)
+    chk.sample({"string_case": cs[len(cs) // 2], "expected_line": want(cs[len(cs) // 2])})
 
 
 def replay(chk, path):
